@@ -36,7 +36,7 @@ func init() {
 				Rule: fmt.Sprintf("12 documents per format (YAML, JSON): base; without prefix_deny; without prefix_allow; users reordered; users shrunk so the guest takes the administrator's list position; administrator without commands; "+
 					"without groups and authenticator; authenticator options with a key removed; secrets shrunk and reordered; syntactically invalid; valid but no users; valid but no secrets. All sequences of length <= %d are fed to ONE loader object. "+
 					"After every load: a successful load must publish a value reflect.DeepEqual to what a freshly constructed loader publishes for the same document; every value published earlier must still equal the deep copy taken when it was published; "+
-					"a failing load must publish nothing; when a failing document is fed before the consumer collected the previously published value, that value must still be delivered unchanged. Each published value is also handed to a real loader.Loader behind the full server and the outcome of (a) a connection from an address only prefix_deny blocks and (b) a command authorization "+
+					"a failing load must publish nothing; when a failing document is fed before the consumer collected the previously published value, that value must still be delivered unchanged. Each published value is also handed to a real loader.Loader behind the full server and the outcome of (a) a connection from an address only prefix_deny blocks, (a2) a lookup from an address only the second scope covers (served iff the document lists that scope and assigns it a user) and (b) a command authorization "+
 					"only the administrator holds must be what the last good document says. File plane: ONE path rewritten <= 3 (4) times over {document A, A with one rule flipped (same length), another document, unparsable text} x {modification time moves on, modification time pinned} and reloaded with Load(path) after every rewrite: what is published equals what a fresh loader publishes for the file as it is now. distinct_nontrivial = distinct sequences with at least two different successful documents", d),
 				Assumptions: []string{"documents are produced by marshalling config values with the repository's struct tags (omitempty drops the optional keys)"}}
 		},
@@ -380,6 +380,26 @@ func c16Behaviour(c *Ctx, rw *rworld, doc config.ServerConfig) string {
 	}
 	if !denied && err != nil {
 		return "an address that only a removed prefix_deny blocked is still refused: " + err.Error()
+	}
+	// a client that only the second scope covers is served exactly when the document lists that scope and assigns a user to it
+	wantS2 := false
+	for _, sc := range doc.Secrets {
+		if sc.Name == "s2" {
+			for _, u := range doc.Users {
+				for _, us := range u.Scopes {
+					if us == "s2" {
+						wantS2 = true
+					}
+				}
+			}
+		}
+	}
+	secret2, _, err2 := rw.Loader.Get(context.Background(), srvx.Addr4(192, 168, 1, 1, 99))
+	if wantS2 && (err2 != nil || string(secret2) != "key-two") {
+		return fmt.Sprintf("a client of the second scope, which the document lists with a user, is not served with its key (secret %q, err %v)", secret2, err2)
+	}
+	if !wantS2 && err2 == nil {
+		return fmt.Sprintf("a client that only the second scope covers is served with secret %q although the document gives that scope no user (or does not list it)", secret2)
 	}
 	// command authorization only the administrator holds: configure terminal, asked as guest and as admin
 	conn, e := rw.W.Open(srvx.Addr4(10, 1, 1, 1, 99))
